@@ -44,6 +44,15 @@ def shape_doctest(rng, dt, kind):
         steps.insert(0, {'i': base, 'form': 'directive', 'pts': [], 'ps2': False, 'sep': 'none', 'dirs': d})
         if len(steps) > 1:
             steps[1]['sep'] = 'none'
+    elif kind == 'partly_skipped' and rng.random() < 0.35 and \
+            any(st['form'] not in W.NOCODE_FORMS and st['form'] not in gen.NO_INLINE_FORMS and not st.get('inline') for st in steps):
+        # everything switched off by a leading block directive; one statement switches itself back on
+        cands = [st for st in steps if st['form'] not in W.NOCODE_FORMS and st['form'] not in gen.NO_INLINE_FORMS and not st.get('inline')]
+        st = rng.choice(cands)
+        st['inline'] = [['-', 'SKIP', None]]
+        st['inline_at'] = rng.choice(['first', 'last'])
+        steps.insert(0, {'i': base, 'form': 'directive', 'pts': [], 'ps2': False, 'sep': 'none', 'dirs': [['+', 'SKIP', None]]})
+        steps[1]['sep'] = 'none'
     elif kind == 'partly_skipped' and len(steps) >= 2:
         pos = rng.randint(1, len(steps) - 1)
         steps.insert(pos, {'i': base, 'form': 'directive', 'pts': [], 'ps2': False, 'sep': steps[pos].get('sep', 'none'),
